@@ -12,7 +12,7 @@ Sd(cc, code, kind) ==
 Bp(name, countries, sectors, free) ==
     [name |-> name, countries |-> countries, external |-> "none", sectors |-> sectors, free |-> free,
      freeq |-> free,     \* the (smaller) set used by the quick instance
-     flows |-> << >>, suppliers |-> << >>, exo |-> << >>, wellformed |-> TRUE]
+     flows |-> << >>, suppliers |-> << >>, exo |-> << >>, wellformed |-> TRUE, gold |-> FALSE]
 
 C1 == << [code |-> "C", cur |-> "C"] >>
 Exo(s, v) == [s |-> s, var |-> v]
@@ -114,6 +114,36 @@ TWOSUP == [Bp("TWOSUP", C1, << Sd("C", "GOV", "ConsolidatedGovernment"), Sd("C",
                                Sd("C", "TF", "TaxFlow"), Sd("C", "LAB", "Market"), Sd("C", "GOOD", "Market") >>, {3, 4})
           EXCEPT !.wellformed = FALSE]
 
-AllBlueprints == {SIM, SIMEX, SIMCAP, SIMMARGIN, SIMMON, SIMDEP, PC, MULTI, FED, GIFT, GIFT2, IMPORT, NOEXT1, NOEXT2, NOSUP, TWOSUP}
+\* ---- renamed twins: other sector / goods / labour codes through the constructor parameters (C18) -------------
+Rn(d) == [d EXCEPT !.good = "WID_GET", !.lab = "WORK", !.taxto = "GOVT"]
+SIMR == [Bp("SIMR", << [code |-> "ZZ", cur |-> "ZZ"] >>,
+           << [Rn(Sd("ZZ", "GOVT", "ConsolidatedGovernment")) EXCEPT !.extra = << "DEM_WID_GET" >>],
+              Rn(Sd("ZZ", "HOUSE_1", "Household")), Rn(Sd("ZZ", "FIRM", "FixedMarginBusiness")), Rn(Sd("ZZ", "TX", "TaxFlow")),
+              Rn(Sd("ZZ", "WORK", "Market")), Rn(Sd("ZZ", "WID_GET", "Market")) >>, 1..6)
+        EXCEPT !.freeq = {3, 5, 6}, !.exo = << Exo(1, "DEM_WID_GET") >>]
+SIMEXR == [SIMR EXCEPT !.name = "SIMEXR", !.freeq = {2, 3}, !.sectors[2].kind = "HouseholdWithExpectations", !.sectors[3].margin = TRUE]
+
+\* ---- two economies with different currencies in one model, nothing declared between them (C18) -----------------
+JOIN2 == [Bp("JOIN2", C2,
+       << Sd("A", "GOV", "ConsolidatedGovernment"), Sd("A", "HH", "Household"),
+          Sd("A", "BUS", "FixedMarginBusiness"), Sd("A", "TF", "TaxFlow"), Sd("A", "LAB", "Market"), Sd("A", "GOOD", "Market"),
+          Sd("B", "GOV", "ConsolidatedGovernment"), Sd("B", "HH", "HouseholdWithExpectations"),
+          [Sd("B", "BUS", "FixedMarginBusiness") EXCEPT !.margin = TRUE], Sd("B", "TF", "TaxFlow"), Sd("B", "LAB", "Market"),
+          Sd("B", "GOOD", "Market") >>, {4, 9, 11})
+        EXCEPT !.freeq = {4, 11}, !.exo = << Exo(1, "DEM_GOOD"), Exo(7, "DEM_GOOD") >>]
+JOIN2X == [JOIN2 EXCEPT !.name = "JOIN2X", !.external = "last", !.freeq = {9}]
+
+\* ---- gold standard: both governments buy / sell gold so that the FX position in their currency is zero ---------
+GOLD2 == [TwoCountry("GOLD2") EXCEPT !.external = "first", !.gold = TRUE, !.freeq = {3}, !.free = {3, 8},
+            !.sectors[1].kind = "GoldStandardGovernment", !.sectors[7].kind = "GoldStandardGovernment",
+            !.flows = << Flow(2, 8, "GIFT", FALSE, TRUE), Flow(8, 2, "GIFT", FALSE, TRUE) >>,
+            !.exo = << Exo(1, "DEM_GOOD"), Exo(7, "DEM_GOOD") >>]
+\* ill-formed: a gold-standard government without an external sector
+GOLDNOEXT == [Bp("GOLDNOEXT", C1, << Sd("C", "GOV", "GoldStandardGovernment"), Sd("C", "HH", "Household"),
+                               Sd("C", "BUS", "FixedMarginBusiness"), Sd("C", "TF", "TaxFlow"),
+                               Sd("C", "LAB", "Market"), Sd("C", "GOOD", "Market") >>, {3})
+          EXCEPT !.wellformed = FALSE]
+
+AllBlueprints == {SIMR, SIMEXR, JOIN2, JOIN2X, GOLD2, GOLDNOEXT, SIM, SIMEX, SIMCAP, SIMMARGIN, SIMMON, SIMDEP, PC, MULTI, FED, GIFT, GIFT2, IMPORT, NOEXT1, NOEXT2, NOSUP, TWOSUP}
 QuickBlueprints == { [b EXCEPT !.free = b.freeq] : b \in AllBlueprints }
 =============================================================================
